@@ -14,6 +14,17 @@ import (
 
 const VerifDir = "/verif"
 
+// outDir: where evidence and replay files go — /verif, except when the seed tooling runs dsvc on a scratch tree
+// (DSVC_REPO), whose results must not overwrite the evidence of the real tree.
+func outDir() string {
+	if os.Getenv("DSVC_REPO") != "" {
+		d := filepath.Join(os.TempDir(), "dsvc-scratch-out")
+		os.MkdirAll(d, 0o755)
+		return d
+	}
+	return VerifDir
+}
+
 // Prepare runs the frame/effect pass.
 func (e *Engine) Prepare() {
 	e.effects = e.ComputeEffects()
@@ -204,7 +215,7 @@ func CheckCmd(args []string) int {
 	if *tier == "thorough" {
 		secs = 60
 	}
-	os.RemoveAll(filepath.Join(VerifDir, "replay", prop))
+	os.RemoveAll(filepath.Join(outDir(), "replay", prop))
 	rr, err := RunProperty(prop, secs, *tier == "thorough", *keep)
 	if err != nil {
 		// a tree that no longer loads or whose contracts no longer resolve cannot be certified
@@ -235,7 +246,7 @@ func CheckCmd(args []string) int {
 }
 
 func writeReplay(prop, name, text, goTest string) string {
-	dir := filepath.Join(VerifDir, "replay", prop)
+	dir := filepath.Join(outDir(), "replay", prop)
 	os.MkdirAll(dir, 0o755)
 	f := filepath.Join(dir, safeFile(name)+".txt")
 	os.WriteFile(f, []byte(text), 0o644)
@@ -421,8 +432,8 @@ func writeEvidence(prop, tier string, seed int, rr *RunResult, cov map[string]an
 		ev.Level = lv
 	}
 	b, _ := json.MarshalIndent(ev, "", " ")
-	os.MkdirAll(filepath.Join(VerifDir, "evidence"), 0o755)
-	os.WriteFile(filepath.Join(VerifDir, "evidence", prop+".json"), b, 0o644)
+	os.MkdirAll(filepath.Join(outDir(), "evidence"), 0o755)
+	os.WriteFile(filepath.Join(outDir(), "evidence", prop+".json"), b, 0o644)
 }
 
 var levelOverride = map[string]string{"C11": "other"}
